@@ -3,6 +3,25 @@
 import json
 
 TEXTS = {
+ "C01": ("bounded-exhaustive enumeration of every producer of redactable text on the real code (call sequences on 8 implementations, explicit-state search over buffer states, 5 formatting entry points on directive x value products, format programs, all short byte strings, Join lists) with a byte-scanner well-formedness oracle on every output",
+         "Every string produced in the explored spaces is scanned by an independent byte-level automaton: markers strictly alternate, and after deleting the library's delimiters no marker remains (data can neither forge nor re-assemble one). Spaces: all SafeWriter call sequences to depth 3 (incl. invalid runes/bytes) on 8 implementations; breadth-first search over canonical buffer states; quick 5k / thorough ~37k directives x ~130 values x 2 instantiations x 5 entry points; all formats of <=3/4 tokens and all 1-2 byte formats; all byte strings to length 5/7 through 11 producers; all Join lists of <=3 over 9 redactables x 3 delimiters.",
+         "Values outside the universe and payloads longer than the alphabets' symbols are not explored; the argument that the alphabets suffice is per mechanism (DESIGN section 4).", "5/C01"),
+ "C02": ("two-run (hyper-property) bounded-exhaustive comparison: every cell of directive x value, format program x argument list, directive pair x value pair and Sprint operand list executed with both instantiations of the unsafe leaves, Redact() results compared byte for byte",
+         "Non-interference is checked as a two-run property over complete finite products: quick 5k / thorough 89k directives x ~130 value generators; all formats of <=3/4 tokens x 7 argument lists; 648^2 directive pairs x value pairs; all Sprint lists of <=3 over 20 values; repeated with an error hook installed. Public parts (literals, Safe(), SafeValue, star operands) are shared by both runs.",
+         "Two instantiations per leaf (differing in every byte, sign, case). Known finding K3 (SafeMessager + bad verb) is listed in KNOWN_FINDINGS.txt and reported as KNOWN-FINDING.", "5/C02"),
+ "C03": ("the producer spaces of C01 with the line oracle on every produced string",
+         "Same enumeration as C01; oracle: no line feed between a start marker and its end marker, every line of the output well-formed alone, and Redact/StripMarkers applied line by line equal to the whole.",
+         "As C01.", "5/C03"),
+ "C04": ("differential bounded-exhaustive enumeration against the standard fmt package on the same value objects",
+         "strip(redact.Sprintf(f,a...)) == escape(fmt.Sprintf(f,a...)) and panics-iff over: quick 5k / thorough 89k directives x ~105 fmt-compatible values; all format programs of <=3/4 tokens x 6 argument lists; all 648^2 ordered pairs of mid-size directives; all Sprint operand lists of <=3; the Fprint/Fprintf variants must deliver the same bytes in one write.",
+         "Reference is this sandbox's fmt (go1.23.5). Excluded as the property says: %w, zero flag meeting minus; plus width/precision on composites whose element panics before further elements (Go>=1.21 catchPanic drift, DESIGN 5/C04). Invalid-UTF-8 outputs are compared modulo the '?' guards.", "5/C04"),
+ "C15": ("bounded-exhaustive enumeration of HelperForErrorf formats x operand lists x preceding calls; the operand consumed by each %w is obtained from fmt itself run with sentinel operands",
+         "All formats of <=3/4 tokens over 13 directive tokens (%w with flags, widths, explicit indexes, star) x all operand lists of length 0-3 over 11 operand kinds, after 6 kinds of preceding call: returned error, text (= Sprintf with at most one correctly used %w rendered like %v) and agreement with fmt.Errorf's message/Unwrap for <=1 %w.",
+         "Known finding K2 listed in KNOWN_FINDINGS.txt. reflect.Value operands and misused %+w are compared leniently (fmt release drift).", "5/C15"),
+ "C16": ("bounded-exhaustive route comparison: every argument list / (format, arguments) through all print-style and printf-style routes on the real code",
+         "Sprint vs Fprint (4 writer behaviours: accept, short 0, short half, fail) byte-identical, exactly one Write, (n, err) passed through; StringBuilder, Sprintfn-printer and SafeFormat-printer routes after 6 outer-buffer prefixes equal to prefix+Sprint up to merging of adjacent envelopes. Lists: all singles and pairs with 20 pair values over ~130 values, triples over 20 values; mid/quick directives x universe; all formats of <=3 tokens x 6 argument lists.",
+         "The S variant is the reference text.", "5/C16"),
+
  "C07": ("bounded-exhaustive enumeration of strings over the marker alphabet on the real Redact/StripMarkers vs a scanner-based reference model; all pairs of short well-formed redactables for the concatenation laws",
          "Every string of <=6 (quick) / <=8 (thorough) tokens over {a,start,end,cross,LF,E2,80,B9} is pushed through both variants of Redact/StripMarkers/ToBytes/ToString and compared with an independent byte scanner; well-formed redactables up to 8/10 grammar tokens and all ordered pairs up to 4/5 tokens each for the homomorphism laws. Complete within the bound.",
          "Alphabet argument: the operations distinguish only the classes that are tokens. Outputs of the other checks are covered by their own Redact-based oracles (C02/C03/C10).", "5/C07"),
@@ -22,7 +41,7 @@ TEXTS = {
          "The whole product 32 flag subsets x 8 widths x 6 precisions x 58 verbs is executed under fmt's State and redact's printer (Formatter and SafeFormatter entry); state after re-printing with the reproduced format must equal the original state; MakeFormat is compared with fmt.FormatString; Safe/Unsafe/forwarder fidelity under fmt for 19 operands x the product. Exhaustive in both tiers (quick thins widths/precisions for the operand product only).",
          "The reference is this sandbox's fmt (Go 1.23.5).", "5/C14"),
 }
-CLAIMED_IDS = ["C07", "C09", "C10", "C11", "C13", "C14"]
+CLAIMED_IDS = ["C01", "C02", "C03", "C04", "C07", "C09", "C10", "C11", "C13", "C14", "C15", "C16"]
 CLAIMED = {k: TEXTS[k] for k in CLAIMED_IDS}
 
 PENDING = {}
